@@ -89,6 +89,7 @@ type vfNet struct {
 	burst    [2]int
 	healAt   time.Duration // absolute virtual offset after which the link is perfect (0 = never)
 	faultsOn bool
+	armedAt  time.Duration
 	frozen   bool // hold all packets (not delivered until released)
 	held     []*vfQueued
 	stopped  bool
@@ -156,6 +157,7 @@ func (n *vfNet) poke() {
 func (n *vfNet) armFaults() {
 	n.mu.Lock()
 	n.faultsOn = true
+	n.armedAt = n.now()
 	if n.cfg.HealUs > 0 {
 		n.healAt = n.now() + time.Duration(n.cfg.HealUs)*time.Microsecond
 	}
@@ -231,9 +233,12 @@ func (n *vfNet) send(from int, raw []byte) {
 			n.nDelay++
 		}
 	}
-	for _, b := range n.cfg.Blackouts {
-		if (int(b[0]) == from || b[0] == 2) && now >= time.Duration(b[1])*time.Microsecond && now < time.Duration(b[2])*time.Microsecond {
-			drop = true
+	if n.faultsOn {
+		rel := now - n.armedAt
+		for _, b := range n.cfg.Blackouts {
+			if (int(b[0]) == from || b[0] == 2) && rel >= time.Duration(b[1])*time.Microsecond && rel < time.Duration(b[2])*time.Microsecond {
+				drop = true
+			}
 		}
 	}
 	active := n.faultsOn && (n.healAt == 0 || now < n.healAt)
